@@ -251,6 +251,27 @@ PROPS["C18"] = traits_entry(
     "non-trivial = a root of degree >= 2 of a value above 2^64, a floored division with operands of opposite sign, or a gcd/lcm of multi-byte operands",
     lambda e: (e["op"] == "root" and to_int(e["a"][1]) >= 2 and abs(to_int(e["a"][0])) >= (1 << 64)) or (e["op"] == "integer" and (to_int(e["a"][0]) < 0) != (to_int(e["a"][1]) < 0)) or (e["op"] == "integer" and multi_digit(e, 0) and multi_digit(e, 1)))
 
+PROPS["C20"] = {
+    "bin": "rand", "modes": {"quick": ["opt"], "thorough": ["opt", "debug"]}, "prims": False,
+    "rule": "Standard/Fill/try_fill_slice on scripted byte streams (value bytes = stream bytes, bytes consumed, slice fill = element-wise fill); "
+            "uniform sampling through Uniform::new(_inclusive).sample, sample_single(_inclusive), gen_range(.. and ..=): complete enumeration of all 2^8 / 2^16 first RNG words for 40 / 5 ranges per 8- and 16-bit type "
+            "(sizes 1,2,3,...,2^k,2^k+1, ranges spanning zero, ending at MAX, starting at MIN) and of all 2^24 words for a non-power-of-two range on the 24-bit types (where the approximate rejection zone first applies), "
+            "recorded as a histogram of results over accepted words; at every width membership and termination for the full range, size-1, size 2^k, 2^k+1 and random ranges on crafted word prefixes; "
+            "non-trivial = a histogram event with a range size that is not a power of two, or a range spanning zero or touching a bound of the type",
+    "nontrivial": lambda e: (e["op"] == "uniform_hist" and (to_int(e["a"][2]) & (to_int(e["a"][2]) - 1)) != 0) or (e["op"] == "uniform_point" and (to_int(e["a"][0]) < 0 <= to_int(e["a"][1]))) or e["op"] == "fill_slice",
+    "mc": {"quick": [{"dir": "mc", "module": "MC_Uniform.tla", "cfg": "MC_Uniform_q.cfg", "workers": 4}],
+           "thorough": [{"dir": "mc", "module": "MC_Uniform.tla", "cfg": "MC_Uniform_t.cfg", "workers": 8, "timeout": 3000}]},
+}
+
+# model-checking configurations every check runs: the L1 big-number layer underlies every oracle
+COMMON_MC = {
+    "quick": [{"dir": "mc", "module": "MC_Fast.tla", "cfg": "MC_Fast_b4.cfg", "workers": 4}],
+    "thorough": [{"dir": "mc", "module": "MC_Fast.tla", "cfg": "MC_Fast_b4.cfg", "workers": 4},
+                 {"dir": "mc", "module": "MC_Fast.tla", "cfg": "MC_Fast_b256q.cfg", "workers": 4},
+                 {"dir": "mc", "module": "MC_L1.tla", "cfg": "MC_L1_b4.cfg", "workers": 4},
+                 {"dir": "mc", "module": "MC_L1.tla", "cfg": "MC_L1_b256.cfg", "workers": 4}],
+}
+
 KNOWN_PREDICATES = {}
 
 
